@@ -22,6 +22,7 @@ def main(ck):
     res += CC.run_stream(ck, 'clause-chain', 100 if q else 3000, dict(allow=CLAUSE), dict())            # chains of 1-4 clauses, nested brackets
     res += CC.run_stream(ck, 'clause-chain-flat', 80 if q else 2500, dict(allow=CLAUSE | INNER, flat=True), dict())
     res += CC.run_stream(ck, 'clause-over-expression', 60 if q else 2000, dict(allow=CLAUSE | INNER), dict())
+    res += CC.clause_sees_previous_stream(ck, 'clause-sees-previous', 40 if q else 600)
     CC.report(ck, res)
     c02_ext.run_ext(ck)          # unpivot, pivot, aggr clause, calc with roles, attributes (Props/C02Ext.lean)
     ck.cov['rule'] = ('case = (script, input data); non-trivial = model and engine agree on a non-empty result; distinct by (script, data)')
